@@ -2,7 +2,7 @@
 import engine, vlib, corr
 
 OPS = ["add", "transpose", "copy", "copy_row", "set_ui", "submatrix", "concat", "stack", "extract_u", "extract_l"]
-PROOFS = ["Properties_C08"]
+PROOFS = ["Properties_C08", "Properties_C08t"]
 
 
 def run(res, tier, seed):
@@ -11,7 +11,19 @@ def run(res, tier, seed):
                        "non-trivial unless all operands are zero or 1x1; distinct by (op, shape class mod 64, content kinds, aliasing)")
     engine.proof_part(res, PROOFS)
     n = 60 if tier == "quick" else 600
+    engine.corpus(res, "C08")
     engine.run_ops(res, "C08", OPS, seed, n, 130 if tier == "quick" else 300)
+    # sources / destinations with different geometry: each operand independently owned or a window (different row strides,
+    # word offsets, partial last words) - every source entry must still land at exactly its position
+    import random
+    rr = random.Random(seed + 2)
+
+    def mixed(role):
+        x = rr.random()
+        return None if x < 0.4 else {"fill": rr.choice(["rand", "ones"])}
+    engine.run_ops(res, "C08", OPS, seed + 2, n // 2, 130, W=mixed, tag="/mixed")
+    # extraction of triangles beyond one word (rows 64, 128, ... have whole words left of the diagonal)
+    engine.run_ops(res, "C08", ["extract_u", "extract_l", "transpose"], seed + 3, n // 4, 300, tag="/wide")
 
 
 def replay(res, path):
